@@ -21,7 +21,7 @@ THEOREMS = [
     # DrumTrack
     'NSV.C07.drums_steps', 'NSV.C07.drums_empty', 'NSV.C07.mem_pitchesAt', 'NSV.C07.pitchesAt_sorted',
     # ChordProgression
-    'NSV.C07.chords_steps', 'NSV.C07.chords_coincident_iff',
+    'NSV.C07.chords_steps', 'NSV.C07.chords_coincident_iff', 'NSV.C07.chords_order',
     # NotePerformance
     'NSV.C07.noteperf_tuples', 'NSV.C07.noteperf_errors',
     # Performance / MetricPerformance
@@ -29,7 +29,7 @@ THEOREMS = [
     'NSV.C07.perf_defined',
     # Melody
     'NSV.C07.melody_steps', 'NSV.C07.melody_empty', 'NSV.C07.keptFrom_sublist', 'NSV.C07.kept_increasing',
-    'NSV.C07.kept_chain', 'NSV.C07.kept_stop', 'NSV.C07.kept_top', 'NSV.C07.dup_iff',
+    'NSV.C07.kept_chain', 'NSV.C07.kept_stop', 'NSV.C07.kept_top', 'NSV.C07.dup_iff', 'NSV.C07.melody_order',
     # bar length
     'NSV.C07.steps_per_bar_nonInteger_iff', 'NSV.C07.extractors_nonInteger_iff', 'NSV.C07.bar_start',
     (FLT, 'NSV.C07.spbExact_float'), (FLT, 'NSV.C07.steps_per_bar_float_eq_exact'),
@@ -183,6 +183,24 @@ def overlap_free(notes):
         iv.sort()
         for (a, b), (c, d) in zip(iv, iv[1:]):
             if c < b:
+                return False
+    return True
+
+
+def mel_overlap_free(notes):
+    """no two notes of one pitch overlap — in quantized steps, except for the quantization coincidence: two notes that
+    are disjoint in (unquantized) time and start at different times may be rounded onto one start step"""
+    by = collections.defaultdict(list)
+    for n in notes:
+        by[n.pitch].append(n)
+    for g in by.values():
+        for i, a in enumerate(g):
+            for b in g[i + 1:]:
+                if a.quantized_end_step <= b.quantized_start_step or b.quantized_end_step <= a.quantized_start_step:
+                    continue
+                if (a.quantized_start_step == b.quantized_start_step and a.start_time != b.start_time
+                        and (a.end_time <= b.start_time or b.end_time <= a.start_time)):
+                    continue
                 return False
     return True
 
@@ -367,7 +385,17 @@ def oracle(op, p, ns):
             start, end = p
             if not 0 <= start < end:
                 return None
-            anns = sorted([a for a in ns.text_annotations if a.annotation_type == 1], key=lambda a: a.quantized_step)
+            # "the chord in force": the latest chord symbol at or before the step.  Chord symbols quantized onto one
+            # step are told apart by their unquantized time; two symbols with one (step, time) and different figures
+            # before the range leave "the latest" undefined (outside the statement)
+            anns = [a for a in ns.text_annotations if a.annotation_type == 1]
+            same = collections.defaultdict(set)
+            for a in anns:
+                if a.quantized_step < start:
+                    same[(a.quantized_step, a.time)].add(a.text)
+            if any(len(v) > 1 for v in same.values()):
+                return None
+            anns.sort(key=lambda a: (a.quantized_step, a.time))
             inside = collections.defaultdict(set)
             for a in anns:
                 if start <= a.quantized_step < end:
@@ -402,7 +430,7 @@ def oracle(op, p, ns):
                 return None
             sel = [n for n in notes if n.instrument == inst and n.quantized_start_step >= ss
                    and not (fd and n.is_drum) and n.velocity]
-            if not overlap_free(sel) or any(not 0 <= n.pitch <= 127 for n in sel):
+            if not mel_overlap_free(sel) or any(not 0 <= n.pitch <= 127 for n in sel):
                 return None
             r = ml.Melody()
             raised = None
@@ -418,7 +446,10 @@ def oracle(op, p, ns):
             if not sel:
                 return None if (raised is None and list(r) == []) else 'events or an error although no note is selected'
             onsets = sorted({n.quantized_start_step for n in sel})
-            top = {t: max((n for n in sel if n.quantized_start_step == t), key=lambda n: n.pitch) for t in onsets}
+            # the highest note starting on a step; of two notes of that pitch which quantization put on the step
+            # (they do not overlap in time) the one that really starts first
+            top = {t: min((n for n in sel if n.quantized_start_step == t), key=lambda n: (-n.pitch, n.start_time))
+                   for t in onsets}
             multi = {t for t in onsets if sum(1 for n in sel if n.quantized_start_step == t) > 1}
             want_start = onsets[0] - (onsets[0] - ss) % spb
             kept = [onsets[0]]
@@ -553,16 +584,41 @@ def gen_seq(rng, rel, hist):
         prog = progs[inst] if uniform_prog else rng.choice([0, 5, 40])
         rows.append((pitch, a, b, vel, inst, prog, drum))
         prev = rows[-1]
+    times = {}
+    if rng.random() < 0.35:
+        # quantization coincidence: two notes of one pitch, disjoint in time (… a-0.1 | a+0.35 …), rounded onto one
+        # start step `a` with different end steps; the shuffle below stores them in either order
+        for _ in range(rng.choice([1, 1, 2])):
+            a = rng.choice([0, 0, bar, rng.randrange(0, span + 1)] + [r[1] for r in rows[:3]] + [r[2] for r in rows[:3]])
+            d = rng.choice([2, 2, 3, 4, bar])
+            top_pitch = min(max([r[0] for r in rows] + [59]) + rng.choice([1, 2]), 127)
+            pitch = rng.choice([top_pitch, top_pitch, rng.choice(PITCHES)])
+            if any(not (a + d <= c or e <= a) for (c, e) in occ[pitch]):
+                continue
+            occ[pitch].append((a, a + d))
+            inst = rng.randrange(ninst)
+            drum = {'pitched': False, 'drums': True, 'mixed': rng.random() < 0.4}[kinds[inst]]
+            prog = progs[inst] if uniform_prog else rng.choice([0, 5, 40])
+            first = (pitch, a, a + 1, rng.choice([1, 64, 100]), inst, prog, drum)
+            second = (pitch, a, a + d, rng.choice([40, 100, 127]), inst, prog, drum)
+            times[first] = (max(a - 0.4, 0.0), a - 0.1 if a > 0 else 0.3)
+            times[second] = (a + 0.35, float(a + d))
+            rows += [first, second]
+            hist.add('force:same-pitch-same-step-disjoint-times')
     rng.shuffle(rows)
     jitter = rng.random() < 0.5
     mx = 0
-    for (pitch, a, b, vel, inst, prog, drum) in rows:
+    for row in rows:
+        (pitch, a, b, vel, inst, prog, drum) = row
         n = ns.notes.add()
         n.pitch, n.quantized_start_step, n.quantized_end_step = pitch, a, b
         n.velocity, n.instrument, n.program, n.is_drum = vel, inst, prog, drum
         j = rng.choice([-0.4, -0.2, 0.0, 0.0, 0.2, 0.4]) if jitter else 0.0
-        n.start_time = max(0.0, (a + j) * secs)
-        n.end_time = b * secs
+        if row in times:
+            n.start_time, n.end_time = times[row][0] * secs, times[row][1] * secs
+        else:
+            n.start_time = max(0.0, (a + j) * secs)
+            n.end_time = b * secs
         mx = max(mx, b)
     if rel:
         for _ in range(rng.choice([0, 0, 1, 2, 3, 5])):
@@ -577,6 +633,18 @@ def gen_seq(rng, rel, hist):
                 a.text = rng.choice(CHORD_TEXTS)
             a.annotation_type = rng.choice([1, 1, 1, 1, 0, 2])
             a.time = a.quantized_step * secs
+        if rng.random() < 0.35:
+            # quantization coincidence: two chord symbols at distinct times rounded onto one step (mostly different
+            # figures), stored in either order; gen_params then extracts from a later start step
+            c = rng.choice([0, 1, bar - 1, bar, rng.randrange(0, span + 1)])
+            figs = rng.sample(CHORD_TEXTS, 2) if rng.random() < 0.85 else [rng.choice(CHORD_TEXTS)] * 2
+            pair = [(max(c - 0.3, 0.0) * secs, figs[0]), ((c + 0.2) * secs, figs[1])]
+            if rng.random() < 0.5:
+                pair.reverse()
+            for (t, fig) in pair:
+                a = ns.text_annotations.add()
+                a.quantized_step, a.text, a.annotation_type, a.time = c, fig, 1, t
+            hist.add('force:chords-one-step-distinct-times')
     k = rng.random()
     ns.total_quantized_steps = mx if k < 0.6 else mx + rng.choice([1, bar, 3])
     ns.total_time = mx * secs
@@ -675,6 +743,9 @@ def gen_params(rng, op, ns, malformed):
     if op == 'chords':
         cs = [a.quantized_step for a in ns.text_annotations] or [0]
         a = rng.choice([0, 0, bar, rng.choice(cs), rng.choice(cs) + 1, rng.randrange(0, T + 2)])
+        shared = sorted({x for x in cs if cs.count(x) > 1})
+        if shared and rng.random() < 0.5:          # start after a step that several chord symbols share
+            a = rng.choice(shared) + rng.choice([1, 1, 2, bar])
         b = rng.choice([T, T + 1, a + bar, rng.choice(cs), rng.choice(cs) + 1, a + rng.randrange(1, 2 * bar + 1)])
         if not malformed and b <= a:
             b = a + rng.randrange(1, bar + 1)
@@ -695,6 +766,21 @@ ABS_OPS = ['perf', 'nperf']
 def branches(op, p, ns, impl):
     """coverage labels from the implementation's answer"""
     h = ['op:' + op, ('result:' + impl.split()[1]) if impl.startswith('err') else 'result:ok']
+    if op == 'melody':
+        sel = [n for n in ns.notes if n.instrument == p[1] and n.quantized_start_step >= p[0]
+               and not (p[5] and n.is_drum) and n.velocity]
+        groups = collections.defaultdict(set)
+        for n in sel:
+            groups[(n.quantized_start_step, n.pitch)].add((n.start_time, n.quantized_end_step))
+        if any(len({t for t, _ in g}) > 1 and len({e for _, e in g}) > 1 for g in groups.values()):
+            h.append('melody:start-time-tie-break-among-selected(ignore_poly=%s)' % bool(p[3]))
+    if op == 'chords':
+        groups = collections.defaultdict(set)
+        for a in ns.text_annotations:
+            if a.annotation_type == 1 and a.quantized_step < p[0]:
+                groups[a.quantized_step].add((a.time, a.text))
+        if any(len({t for t, _ in g}) > 1 and len({x for _, x in g}) > 1 for g in groups.values()):
+            h.append('chords:time-tie-break-before-start')
     if impl.startswith('ok'):
         t = impl.split()
         if op in ('perf', 'mperf'):
@@ -764,7 +850,8 @@ def run(chk):
         'numpy array semantics (zeros, slice assignment with clipping, where) and CPython sorted() stability / tuple order, modelled',
     ])
     chk.rule = ('quantized NoteSequences (0-40 notes, 1-3 instruments, pitched/drum/mixed per instrument number, velocities 0..127, '
-                'steps generated directly with forced step-0, abutting same-pitch, same-start and gap-boundary notes, or produced by '
+                'steps generated directly with forced step-0, abutting same-pitch, same-start and gap-boundary notes, same-pitch notes and '
+                'chord symbols at distinct times rounded onto one step (both storage orders), or produced by '
                 'the real quantizer; chord annotations incl. coincident ones) x every extractor with random parameters from the '
                 'quantifier; separate malformed stream. non-trivial = distinct (extractor, parameters, sequence) answered by the model')
     # ---- corpus first
